@@ -1,5 +1,6 @@
 import HappyModel.C14.Driver
 import HappyModel.C15.Spec
+import HappyModel.C15.Sync
 /-! Line-protocol driver for C15 (other side: `hv/props/c15.py`). -/
 namespace HappyModel.C15.Driver
 open HappyModel.Proto HappyModel.C14 HappyModel.C14.Driver HappyModel.C15
@@ -18,42 +19,50 @@ def isWrite (inp : Input) (id : Nat) : Bool :=
   | some (.del _) => true
   | _ => false
 
-def wLine (inp : Input) (f : Frame) : Option String :=
+def wLine (inp : Input) (syncDone : List Nat) (f : Frame) : Option String :=
   match f.b with
   | none => none
   | some b =>
     if !isWrite inp f.id then none else
     let e := match f.e with | some e => toString e | none => "x"
-    some s!"w {f.id} {f.seq0} {b} {e}"
+    some s!"w {f.id} {f.seq0} {b} {e} {if syncDone.contains f.id then 1 else 0}"
 
 /-- run the schedule, then crash + recover (+ recover, + crash + recover) -/
 def runCrash (body : List String) : List String :=
   let inp := parse body
-  let y := Sys.run inp.cfg inp.sys inp.sched
+  let yd := syncDoneRun inp.cfg inp.sys [] inp.sched
+  let y := yd.1
   let s1 := y.st.crash.recover
   let s2 := s1.recover
   let s3 := s2.crash.recover
   (sortFrames y.frames).filterMap frameLine ++
-  (sortFrames y.frames).filterMap (wLine inp) ++
+  (sortFrames y.frames).filterMap (wLine inp yd.2) ++
   [ s!"synced {y.st.synced}", s!"appended {y.st.nextSeq - 1}",
     readsLine "r1" inp.nkeys s1, s!"walsize {s1.wal.length}",
     readsLine "r2" inp.nkeys s2, readsLine "r3" inp.nkeys s3,
     "levels " ++ joinSp (s3.levels.map fun l => s!"{l.length}:{keyCount l}") ]
 
 /-! judge input: the C14 `cfg`/`op` lines, then
-    `w <id> <seq> <b> <e|x>` per started write, `synced <n>`, `r1 …`, `r2 …`, `r3 …` -/
+    `w <id> <seq> <b> <e|x> <sync done 0|1>` per started write, `synced <n>`, `r1 …`, `r2 …`, `r3 …` -/
 def parseReads (ts : List String) : List (Option Nat) := ts.map nat?
 
 def judge (body : List String) : List String :=
   let inp := parse body
   let ws : List WRec := body.filterMap fun l =>
     match toks l with
-    | ["w", id, seq, b, e] =>
+    | ["w", id, seq, b, e, _] =>
       match inp.ops.lookup (natD id) with
       | some (.put k v) => some ⟨natD id, k, some v, natD seq, natD b, nat? e⟩
       | some (.del k) => some ⟨natD id, k, none, natD seq, natD b, nat? e⟩
       | _ => none
     | _ => none
+  let syncDone : List Nat := body.filterMap fun l =>
+    match toks l with
+    | ["w", id, _, _, _, "1"] => some (natD id)
+    | _ => none
+  let every := match inp.cfg.wal with
+    | some .every => true
+    | _ => false
   let get (tag : String) : Option (List (Option Nat)) :=
     body.findSome? fun l => match toks l with
       | t :: rest => if t == tag then some (parseReads rest) else none
@@ -64,7 +73,7 @@ def judge (body : List String) : List String :=
   match get "r1", get "r2", get "r3" with
   | some r1, some r2, some r3 =>
     if r1.length != inp.nkeys then ["viol wal/malformed-judge-input"] else
-    match judgeCrash ws synced r1 r2 r3 with
+    match judgeCrashAck every ws syncDone synced r1 r2 r3 with
     | none => ["ok"]
     | some sig => [s!"viol {sig}"]
   | _, _, _ => ["viol wal/malformed-judge-input"]
